@@ -186,6 +186,12 @@ impl Manifest {
     }
 }
 
+/// The part of a skill module id after the first `:` becomes a directory below the skills root of
+/// each target (nested names such as `team/x` are fine), so it must not be able to leave that root.
+fn is_safe_skill_name(name: &str) -> bool {
+    !name.starts_with('/') && !name.contains('\\') && !name.split('/').any(|c| c == "..")
+}
+
 fn validate_manifest(manifest: &Manifest) -> anyhow::Result<()> {
     if manifest.version != 1 {
         return Err(anyhow::Error::new(
@@ -301,6 +307,23 @@ fn validate_manifest(manifest: &Manifest) -> anyhow::Result<()> {
                 UserError::new("E_CONFIG_INVALID", format!("duplicate module id: {}", m.id))
                     .with_details(serde_json::json!({ "module_id": m.id })),
             ));
+        }
+
+        if matches!(m.module_type, ModuleType::Skill) {
+            if let Some((_, name)) = m.id.split_once(':') {
+                if !is_safe_skill_name(name) {
+                    return Err(anyhow::Error::new(
+                        UserError::new(
+                            "E_CONFIG_INVALID",
+                            format!(
+                                "skill module id {} has an unsafe name part: it must be a relative path without '..' or '\\'",
+                                m.id
+                            ),
+                        )
+                        .with_details(serde_json::json!({ "module_id": m.id, "name": name })),
+                    ));
+                }
+            }
         }
 
         for t in &m.targets {
